@@ -955,7 +955,9 @@ func (c *Canonicalizer) processInstruction(instr ssa.Instruction) {
 			c.scratch.WriteString(", CommaOk")
 		}
 	case *ssa.MakeInterface:
-		c.scratch.WriteString(fmt.Sprintf("MakeInterface %s, %s", sanitizeType(i.Type()), c.NormalizeOperand(i.X, instr)))
+		// The dynamic type is part of the value: any(int32(1)) and any(int64(1)) differ,
+		// and a constant operand does not show its type.
+		c.scratch.WriteString(fmt.Sprintf("MakeInterface %s <- %s, %s", sanitizeType(i.Type()), sanitizeType(i.X.Type()), c.NormalizeOperand(i.X, instr)))
 	case *ssa.ChangeType:
 		c.scratch.WriteString(fmt.Sprintf("ChangeType %s, %s", sanitizeType(i.Type()), c.NormalizeOperand(i.X, instr)))
 	case *ssa.Convert:
